@@ -410,7 +410,11 @@ fn faulted_run(b: &Base, k: u64, once: bool, torn: bool, rng: &mut Rng, out: &mu
         };
         // a torn failed header write may have stored the god byte although the write was refused
         let torn_header = torn && events.iter().any(|e| !e.ok && e.kind == Kind::Write && e.off == 0);
-        if !fault_is_final_sync && !torn_header {
+        // check_integrity() clears the flag on disk inside its repair (do_repair: clear_recovery_required) and
+        // sets it again at its end (begin_writable): a failure in between legitimately leaves a file whose flag
+        // is clear -- it holds the repaired, consistent state; what it reopens to is judged by the reopen oracle above
+        let in_integrity_window = latched.as_ref().is_some_and(|le| r.apis.get(le.api as usize).is_some_and(|a| a.name == "check_integrity"));
+        if !fault_is_final_sync && !torn_header && !in_integrity_window {
             out.cases.push(format!("D {evs}"));
             out.impls.push(format!("{}", flag as u8));
             out.metas.push(format!("{{\"scenario\":\"recovery-flag\",{replay}}}"));
